@@ -641,6 +641,11 @@ def plan(ctx, rng):
                 if op == "display-port" and "pair" in shape and n >= 100000:
                     continue                      # quadratic prelude printer on nested pairs (see above)
                 cases.append((shape, op, n, st, 6 if quick else (30 if n <= 100000 else 90), quick))
+    if quick:
+        # the deepest tier for a few alternations of kinds that each have an iterative drop of their own
+        for shape in ("alt:list+ivec", "alt:struct+list+mvec", "alt:ivec+map-value+list", "alt:list+ivec+pair-car"):
+            for op, st in (("drop", "thread"), ("gc-dead", "main"), ("equal-copy", "thread")):
+                cases.append((shape, op, 1000000, st, 30, False))
     # a sample of the same operations as module-level code of a required file
     for shape in ("list", "mvec", "struct", "mstruct", "box", "closure", "pair-car"):
         for op in MOD_BASE:
